@@ -42,15 +42,28 @@ func verifScaleBodyT(requests int, targets []int, maxIdx int, variants bool) {
 	// each initial replica either runs until stopped or has already completed (exit 0) when the
 	// scale request arrives
 	completed := map[string]bool{}
+	nBackoff := 0 // the back-off variant of a replica is explored for single requests only
+	if requests == 1 {
+		nBackoff = 1
+	}
+	var backoff []string // replica names whose command is made to die right before the first request
 	for nm, pc := range prj.Processes {
 		if pc.Name != "p" {
 			continue
 		}
 		key := "p/" + strconv.Itoa(pc.ReplicaNum)
-		if variants && verifChooseK("completed."+key, 2) == 1 {
+		switch {
+		case !variants:
+		case verifChooseK("completed."+key, 2+nBackoff) == 1:
 			completed[key] = true
 			w.behavKey[key] = &vBehav{codes: []int{0}}
-			_ = nm
+		case verifChooseK("completed."+key, 2+nBackoff) == 2:
+			// this replica restarts for ever; its command has just died and it waits out its
+			// back-off (5 s) when the scale request arrives
+			pc.RestartPolicy = types.RestartPolicyConfig{Restart: types.RestartPolicyAlways, BackoffSeconds: 5}
+			prj.Processes[nm] = pc
+			w.behavKey[key] = &vBehav{untilStop: []bool{true}, codes: []int{1}}
+			backoff = append(backoff, nm)
 		}
 	}
 	// the final project shutdown is the default or the ordered one (it looks the replicas up
@@ -60,6 +73,13 @@ func verifScaleBodyT(requests int, targets []int, maxIdx int, variants bool) {
 	runDone := make(chan error, 1)
 	go func() { runDone <- r.Run() }()
 	verifQuiesce()
+	for _, nm := range backoff {
+		vCrash(nm)
+	}
+	if len(backoff) > 0 {
+		verifShape("replica.in.back-off")
+		verifSettle()
+	}
 	cur := r0
 	for k := 0; k < requests; k++ {
 		n := targets[verifChooseK("scale.to."+strconv.Itoa(k), len(targets))]
